@@ -125,25 +125,30 @@ def judge_scientific(text: str, value: float, places: int):
 
 
 def judge_base(text: str, value: float, base: int, places: int, twos: bool):
+    """The text, read in that base, must be the value rounded to an integer (either neighbour at a tie)."""
+    import math
     out = []
-    iv = int(round(value))
-    f = {"fmt": "base", "twos": bool(twos), "negative": iv < 0}
+    x = dec(value)
+    lo, hi = math.ceil(x - Decimal("0.5")), math.floor(x + Decimal("0.5"))
+    admissible = list(range(int(lo), int(hi) + 1)) or [int(round(value))]
+    f = {"fmt": "base", "twos": bool(twos), "negative": x < 0, "integer_value": x == x.to_integral_value()}
     try:
-        if twos and iv < 0:
+        if twos and max(admissible) < 0:
             val = int(text, base)
-            if not any(val == iv % (1 << w) for w in range(32, 200)):
-                out.append(("magnitude", {**f, "what": "twos-complement"}, {"text": text, "value": iv, "base": base}))
+            if not any(val == n % (1 << w) for n in admissible for w in range(32, 200)):
+                out.append(("magnitude", {**f, "what": "twos-complement"}, {"text": text, "value": repr(value), "base": base}))
         else:
             neg = text.startswith("-")
             body = text[1:] if neg else text
             if not body or not re.fullmatch(r"[0-9A-Z]+", body):
-                return [("unparsable", {**f, "what": "digits"}, {"text": text, "value": iv, "base": base})]
-            if int(body, base) * (-1 if neg else 1) != iv:
-                out.append(("magnitude", {**f, "what": "value"}, {"text": text, "value": iv, "base": base}))
+                return [("unparsable", {**f, "what": "digits"}, {"text": text, "value": repr(value), "base": base})]
+            shown = int(body, base) * (-1 if neg else 1)
+            if shown not in admissible:
+                out.append(("magnitude", {**f, "what": "value"}, {"text": text, "value": repr(value), "base": base, "shown": shown}))
             if len(body) < places:
                 out.append(("decimals_shown", {**f, "what": "zero-padding"}, {"text": text, "places": places}))
     except ValueError:
-        out.append(("unparsable", {**f, "what": "digits"}, {"text": text, "value": iv, "base": base}))
+        out.append(("unparsable", {**f, "what": "digits"}, {"text": text, "value": repr(value), "base": base}))
     return out
 
 
